@@ -1,4 +1,37 @@
-import IsalVerif.Impl.GcmStream
-import IsalVerif.Spec.Xts
-import IsalVerif.Spec.Cbc
-/-! C04 — property theorems (being filled in; see DESIGN.md status) -/
+import IsalVerif.Props.AesLaws
+/-!
+# C04 — AES key expansion equals FIPS-197; AES-CBC equals SP 800-38A
+
+Per-call correspondence of `_aes_keyexp_{128,192,256}_{sse,avx}`, `_aes_cbc_enc_*_{x4,x8}`,
+`_aes_cbc_dec_*_{sse,avx,vaes_avx512}` + public API with `Spec/Aes.lean`, `Spec/Cbc.lean` (and
+OpenSSL); proved here: the laws of the specification the statement names.
+-/
+namespace IsalVerif.C04
+open IsalVerif AesLaws Aes
+
+/-- key expansion yields Nr+1 round keys of 16 bytes (11 / 13 / 15 for 128 / 192 / 256-bit keys) -/
+theorem C04_schedule_shape (key : Bytes) :
+    (keyExpansion key).length = rounds key.length + 1 ∧ ∀ k ∈ keyExpansion key, k.length = 16 :=
+  aes_keyExpansion_wf key
+
+/-- the decryption schedule (reversed, InvMixColumns on the inner round keys) used with the
+    equivalent inverse cipher of FIPS-197 §5.3.5 is the inverse cipher -/
+theorem C04_dec_schedule (rks : List Bytes) (b : Bytes) (hk : ∀ k ∈ rks, k.length = 16) (hb : b.length = 16) :
+    eqInvCipher (decSchedule rks) b = invCipher rks b ∧ invCipher rks (cipher rks b) = b :=
+  ⟨aes_eqInvCipher rks b hk hb, aes_invCipher_cipher rks b hk hb⟩
+
+/-- CBC decryption inverts CBC encryption for every length that is a multiple of 16 -/
+theorem C04_cbc_roundtrip (rks : List Bytes) (iv pt : Bytes) (hk : ∀ k ∈ rks, k.length = 16)
+    (hiv : iv.length = 16) (hpt : pt.length % 16 = 0) : Cbc.cbcDec rks iv (Cbc.cbcEnc rks iv pt) = pt :=
+  cbc_dec_enc rks iv pt hk hiv hpt
+
+/-- decrypting with the library's decryption schedule = the specification's decryption -/
+theorem C04_cbc_dec_schedule (rks : List Bytes) (iv ct : Bytes) (hk : ∀ k ∈ rks, k.length = 16) :
+    Cbc.cbcDecEq (decSchedule rks) iv ct = Cbc.cbcDec rks iv ct := cbc_decEq rks iv ct hk
+
+/-- chaining across loop iterations: decrypting g blocks at a time (8 or 16 in the assembly), each
+    group taking the previous group's last ciphertext block as IV, is CBC decryption — any g ≥ 1 -/
+theorem C04_cbc_by_groups (g : Nat) (rks : List Bytes) (iv ct : Bytes) (hg : 1 ≤ g) (hct : ct.length % 16 = 0) :
+    Cbc.cbcDecByGroups g rks iv ct = Cbc.cbcDec rks iv ct := cbc_dec_by_groups g rks iv ct hg hct
+
+end IsalVerif.C04
